@@ -29,28 +29,26 @@ structure MState where
 
 /-! ### shapes of the records the generator emits -/
 
-/-- drop the dumper's `$` -/
-def unDollar (s : String) : String := if s.startsWith "$" then (s.drop 1).toString else s
+/-! STACK CFI records are recognised on the CLASSIFIED tokens of the rule text (`tokenize`,
+    Walk/Cfi.lean: `split_ascii_whitespace`, the `REG:` test of `parse_cfi_exprs`, the `match token`
+    classification of `eval_cfi_expr` — the lexer, no evaluation), as `linkCfi` (Walk/Layout.lean)
+    does. A literal is the `u64` bit pattern the lexer reads (`-16` ↦ `2^64 - 16`). -/
 
-/-- `r: .cfa -OFF + ^` groups -/
-def cfiGroups : List String → Option (List (String × Nat))
+/-- `r: .cfa LIT + ^` groups: `(register, bit pattern of the literal)` -/
+def cfiGroups : List RTok → Option (List (String × Nat))
   | [] => some []
-  | r :: ".cfa" :: off :: "+" :: "^" :: rest =>
-    if r.endsWith ":" ∧ off.startsWith "-" then
-      match (off.drop 1).toString.toNat?, cfiGroups rest with
-      | some o, some l => some ((unDollar (r.dropEnd 1).toString, o) :: l)
-      | _, _ => none
-    else none
+  | .label (.other r) :: .tok .cfa :: .tok (.lit v) :: .tok .add :: .tok .deref :: rest =>
+    (cfiGroups rest).map fun l => (r, v) :: l
   | _ => none
 
-/-- `.cfa: $sp N + .ra: .cfa -W + ^ [r: .cfa -OFF + ^]*` → `(N, saved registers with offsets)` -/
-def matchCanonical (a : Arch) (init : String) : Option (Nat × List (String × Nat)) :=
-  match splitWs init with
-  | ".cfa:" :: sp :: n :: "+" :: ".ra:" :: ".cfa" :: w :: "+" :: "^" :: rest =>
-    if unDollar sp = a.spName ∧ w = s!"-{a.ptr}" then
-      match n.toNat?, cfiGroups rest with
-      | some bytes, some saved => some (bytes, saved)
-      | _, _ => none
+/-- `.cfa: $sp N + .ra: .cfa -W + ^ [r: .cfa -OFF + ^]*` → `(N, saved registers with their literals)`;
+    the stack pointer spelled with or without the dumper's `$` -/
+def matchCanonical (a : Arch) (toks : List RTok) : Option (Nat × List (String × Nat)) :=
+  match toks with
+  | .label .cfa :: .tok sp :: .tok (.lit n) :: .tok .add ::
+      .label .ra :: .tok .cfa :: .tok (.lit w) :: .tok .add :: .tok .deref :: rest =>
+    if (sp = .dollar a.spName ∨ sp = .bare a.spName) ∧ w = 2 ^ 64 - a.ptr then
+      (cfiGroups rest).map fun saved => (n, saved)
     else none
   | _ => none
 
@@ -188,27 +186,35 @@ def regsFrom (known : List (String × Nat)) (claimed : List (String × Nat))
 
 def linkCfiM (w : World) (a : Arch) (mask : Nat) (mem : Mem) (st : MState) (e : Exp) : Bool :=
   let p := a.ptr
+  -- registers a record may save / a frame may claim: callee-saved ones other than the stack pointer
+  let regOk := fun (r : String) => a.calleeSaved.contains r && r != a.spName
   match cfiRecordAt w st.instr with
   | none => false
   | some rec =>
-    rec.adds.isEmpty &&
-    if st.first ∧ a.leafOk ∧ rec.init = leafRule a then
-      decide (e.sp = st.sp) && decide (maskOf a mask st.lr = e.ret) && e.fp == st.fp &&
+    let toks := tokenize rec.init
+    rec.adds.isEmpty && e.regs.all (fun (r, _) => regOk r && r != a.fpName) &&
+    if st.first ∧ a.leafOk ∧ toks = leafToks a then
+      decide (e.sp = st.sp) && decide (st.lr ≤ a.regMax) && decide (maskOf a mask st.lr = e.ret) &&
+      e.fp == st.fp.map (maskOf a mask) &&
       regsFrom st.regs e.regs (fun _ => none)
     else
-      match matchCanonical a rec.init with
+      match matchCanonical a toks with
       | none => false
       | some (bytes, saved) =>
-        let slot := fun (r : String) => (saved.lookup r).map fun off => mem.read (e.sp - off) p
+        -- a slot `OFF` bytes below the CFA (the literal is `-OFF`)
+        let offOf := fun (lit : Nat) => 2 ^ 64 - lit
+        let slot := fun (r : String) => (saved.lookup r).map fun lit => mem.read (e.sp - offOf lit) p
         decide (e.sp = st.sp + bytes) && decide (p ≤ bytes) &&
         (mem.read (e.sp - p) p).map (maskOf a mask) == some e.ret &&
-        saved.all (fun (_, off) => decide (off ≤ bytes) && decide (2 * p ≤ off) && (mem.read (e.sp - off) p).isSome) &&
+        saved.all (fun (r, lit) => regOk r && decide (offOf lit ≤ bytes) && decide (2 * p ≤ offOf lit) &&
+          (mem.read (e.sp - offOf lit) p).isSome) &&
         (saved.map (·.1)).Nodup &&
         (match slot a.fpName with
          | some got => got.map (maskOf a mask) == e.fp && e.fp.isSome
          | none =>
-           -- forwarded (on ARM/ARM64 also above a frame-pointer frame: F28 is fixed)
-           e.fp == st.fp) &&
+           -- forwarded (on ARM/ARM64 also above a frame-pointer frame: F28 is fixed); ARM64 strips
+           -- the ptr-auth bits of a valid frame pointer after every CFI frame
+           e.fp == st.fp.map (maskOf a mask)) &&
         regsFrom st.regs e.regs (fun r => if r = a.fpName then none else slot r)
 
 def linkWinM (w : World) (wins : List (List Win.Rec)) (mem : Mem) (st : MState) (e : Exp) : Bool :=
@@ -316,7 +322,9 @@ def endMixed (w : World) (wins : List (List Win.Rec)) (a : Arch) (os : Os) (mem 
   (fpDead a os mem st.fp || (a == .arm && os == .ios && st.fp == some 0) ||
    match st.fp with
    | some f => decide (st.sp ≤ f) && mem.read f p == some 0 && mem.read (f + p) p == some 0 &&
-               decide (f + 2 * p < a.regMax)
+               decide (f + 2 * p < a.regMax) &&
+               -- Windows x86-64 goes on probing 16 bytes at a time: the record is word-aligned above sp
+               (!(a == .amd64 && os == .windows) || decide ((f - st.sp) % 8 = 0))
    | none => false)
 
 def nextState (env : Env) (a : Arch) (st : MState) (e : Exp) : MState :=
@@ -345,10 +353,10 @@ def PreW (w : World) (wins : List (List Win.Rec)) (env : Env) (a : Arch) (os : O
     (chain : List Exp) : Bool :=
   mem.range?.isSome && (a == .x86 || noWins wins) &&
   ctx.has a a.ipName && ctx.has a a.spName && (ctx.m64 == (a == .mips64)) &&
-  -- x86: 32-bit register values (what the request parser / `CONTEXT_X86` can hold)
-  (a != .x86 || Win.x86Regs.all fun r => decide (ctx.raw .x86 r ≤ U32MAX)) &&
+  -- register values fit the registers (what the `CONTEXT_xx` of this kind / mode can hold)
+  (a.registers.all fun r => decide (ctx.raw a r ≤ a.regMax)) &&
   (!(a.leafOk) || ctx.has a (if a.isMips then "ra" else "lr") ||
-     (cfiRecordAt w ctx.ip).all fun r => r.init ≠ leafRule a) &&
+     (cfiRecordAt w ctx.ip).all fun r => tokenize r.init ≠ leafToks a) &&
   preMixedFrom w wins env a os mem (initState a ctx) chain
 
 end MdModel.Walk
